@@ -16,15 +16,6 @@ def Skel.erase : Skel → Skel
 /-- no internal variable `?'_tN` in a type -/
 def Ty.noInternal (T : Ty) : Prop := T.internals = []
 
-/-- every annotation that is present is free of internal type variables (input skeletons) -/
-def Skel.AnnotNoInternal : Skel → Prop
-  | .svar _ T => ∀ U, T = some U → U.noInternal
-  | .var _ T => ∀ U, T = some U → U.noInternal
-  | .const _ T => ∀ U, T = some U → U.noInternal
-  | .comb f a => f.AnnotNoInternal ∧ a.AnnotNoInternal
-  | .abs _ T b => (∀ U, T = some U → U.noInternal) ∧ b.AnnotNoInternal
-  | .bound _ => True
-
 /-- every type is present and free of internal type variables (results) -/
 def Skel.FullyTyped : Skel → Prop
   | .svar _ T => ∃ U, T = some U ∧ U.noInternal
@@ -34,13 +25,13 @@ def Skel.FullyTyped : Skel → Prop
   | .abs _ T b => (∃ U, T = some U ∧ U.noInternal) ∧ b.FullyTyped
   | .bound _ => True
 
-/-- the declared variable types contain no internal type variables -/
-def Ctx.NoInternal (ctx : Ctx) : Prop :=
-  (∀ n T, ctx.vars.lookup n = some T → T.noInternal) ∧ (∀ n T, ctx.svars.lookup n = some T → T.noInternal)
-
 /-- `Respects ctx vt svt t t'`: `t'` has the shape of the skeleton `t`; every annotation of `t` is kept;
 an unannotated variable `x` gets its declared type if declared and otherwise `vt x` (one type per
-name; `svt` for schematic variables); an unannotated constant gets an instance of its signature type. -/
+name; `svt` for schematic variables); an unannotated constant gets an instance of its signature type
+(or of the type `context.ctxt.defs` gives for the constant being defined).
+NB: "one type per name" is about the occurrences whose type was missing.  An annotated occurrence
+`(x::T)` keeps `T` and is, by the kernel's identity of variables (name + type), a different variable
+from an `x` of another type: `(x::nat) = 0 ∧ x` is inferred with `x::nat` and `x::bool`. -/
 inductive Respects (ctx : Ctx) (vt svt : String → Ty) : Skel → Skel → Prop where
   | varAnn (n : String) (A : Ty) : Respects ctx vt svt (.var n (some A)) (.var n (some A))
   | varDecl (n : String) (T : Ty) : ctx.vars.lookup n = some T → Respects ctx vt svt (.var n none) (.var n (some T))
@@ -51,6 +42,8 @@ inductive Respects (ctx : Ctx) (vt svt : String → Ty) : Skel → Skel → Prop
   | constAnn (n : String) (A : Ty) : Respects ctx vt svt (.const n (some A)) (.const n (some A))
   | constSig (n : String) (S : Ty) (m : List (String × Ty)) : ctx.sig.lookup n = some S →
       Respects ctx vt svt (.const n none) (.const n (some (S.inst m)))
+  | constDef (n : String) (D : Ty) (m : List (String × Ty)) : ctx.defs.lookup n = some D →
+      Respects ctx vt svt (.const n none) (.const n (some (D.instS m)))
   | comb {f f' a a' : Skel} : Respects ctx vt svt f f' → Respects ctx vt svt a a' →
       Respects ctx vt svt (.comb f a) (.comb f' a')
   | absAnn (x : String) (A : Ty) {b b' : Skel} : Respects ctx vt svt b b' →
